@@ -202,10 +202,7 @@ class _Builder:
         elif fin == "U":
             t["final"] = ["unpack", self.slotted_lazy(lambda: self.logged(self.tup()))]
         elif fin == "X":
-            def mk():
-                e = ["setx", "wx", self.logged(self.tup())]
-                return e
-            t["final"] = ["value", self.slotted_lazy(mk)]
+            t["final"] = ["value", self.slotted_lazy(lambda: ["setx", "wx", self.logged(self.tup())])]
             self.body_vars.append("wx")
         elif fin in ("N", "NX"):
             t["final"] = ["value", self.slotted_lazy(lambda: self.nest(fin))]
